@@ -1,4 +1,6 @@
-/* C20 finding: SoPlex_getPrimalReal / SoPlex_getDualReal / SoPlex_getRedCostReal write beyond `dim` after an exact
+/* C20 finding (NOT in known_findings.d/C20.json: the check performs exact solves only where they end OPTIMAL, because the
+ * exact solver leaves inconsistent state behind otherwise; this repro documents what a C caller sees in that region):
+ * SoPlex_getPrimalReal / SoPlex_getDualReal / SoPlex_getRedCostReal write beyond `dim` after an exact
  * solve that ends INFEASIBLE.  Root cause is in the wrapped C++ call: SoPlexBase::getPrimalReal(R*, int size) checks
  * `size >= numCols()` but then copies the WHOLE internal vector (`std::copy(primal.begin(), primal.end(), p_vector)`,
  * soplex.hpp:1142-1155; same pattern in getDualReal/getRedCostReal, soplex.hpp:803-835), and after the feasibility
